@@ -50,6 +50,62 @@ M = [
  ('trigger', 'semantic', 'lib/icinga/downtime.cpp', 'if (GetTriggerTime() == 0) {\n\t\tSetTriggerTime(triggerTime);\n\t}', 'SetTriggerTime(triggerTime);', 'trigger time overwritten on every trigger'),
  ('trigger', 'harmless', 'lib/icinga/downtime.cpp', '\t\t\tif (!downtime)\n\t\t\t\tcontinue;\n\n\t\t\tdowntime->TriggerDowntime(triggerTime);', '\t\t\tif (downtime)\n\t\t\t\tdowntime->TriggerDowntime(triggerTime);', 'if instead of continue'),
  ('is_child_of', 'semantic', 'lib/remote/zone.cpp', '\t\tif (azone == zone)\n\t\t\treturn true;', '\t\tif (azone == zone)\n\t\t\treturn azone != this;', 'a zone is no longer a child of itself'),
+ # ---- round 2
+ ('r2_send', 'semantic', 'lib/icinga/checkable-check.cpp', 'if (IsStateOK(old_state) && old_stateType == StateTypeSoft)\n\t\tsend_notification = false;', 'if (IsStateOK(old_state) && old_stateType == StateTypeSoft && !is_volatile)\n\t\tsend_notification = false;', 'volatile checkables notify on SOFT-OK -> HARD-OK'),
+ ('r2_send', 'harmless', 'lib/icinga/checkable-check.cpp', 'bool suppress_notification = !notification_reachable || in_downtime || IsAcknowledged();', 'bool suppress_notification = !(notification_reachable && !in_downtime && !IsAcknowledged());', 'De Morgan'),
+ ('r2_stash', 'semantic', 'lib/icinga/checkable-check.cpp', 'if (!(suppressed_types_before & stateNotifications) && (suppressed_types & stateNotifications)) {', 'if (suppressed_types & stateNotifications) {', 'state_before_suppression overwritten by every suppressed state notification'),
+ ('r2_stash', 'harmless', 'lib/icinga/checkable-check.cpp', 'if ((suppressed_types_after & conflict) == conflict) {', 'if ((suppressed_types_after & NotificationFlappingStart) && (suppressed_types_after & NotificationFlappingEnd)) {', 'two bit tests instead of a mask comparison'),
+ ('r2_stash2', 'semantic', 'lib/icinga/checkable-check.cpp', 'if (suppress_notification || pending) {', 'if (suppress_notification) {', 'pending suppressed state notifications no longer hold back a new one'),
+ ('r2_fire', 'semantic', 'lib/icinga/checkable-notification.cpp', 'if (!NotificationReasonSuppressed(type) && !IsLikelyToBeCheckedSoon() && !wasLastParentRecoveryRecent.Get()) {', 'if (!NotificationReasonSuppressed(type) && !wasLastParentRecoveryRecent.Get()) {', 'flapping notifications no longer wait for an imminent check'),
+ ('r2_fire', 'harmless', 'lib/icinga/checkable-notification.cpp', 'int suppressed_types_after (suppressed_types_before & ~subtract);', 'int suppressed_types_after (suppressed_types_before - (suppressed_types_before & subtract));', 'bit clearing written as a subtraction'),
+ ('r2_fire2', 'semantic', 'lib/icinga/checkable-notification.cpp', 'if (dynamic_cast<Host*>(this))\n\t\t\t\t\tdiffers = Host::CalculateState(cr->GetState()) != Host::CalculateState(GetStateBeforeSuppression());', '', 'hosts compare raw states again (the defect fixed by 5e50b7a)'),
+ ('r2_gate', 'semantic', 'lib/icinga/notification.cpp', 'if (timesEnd != Empty && timesEnd >= 0 && now > checkable->GetLastHardStateChange() + timesEnd) {', 'if (timesEnd != Empty && timesEnd >= 0 && now >= checkable->GetLastHardStateChange() + timesEnd) {', 'times.end window closes one second early'),
+ ('r2_gate', 'harmless', 'lib/icinga/notification.cpp', 'if (times && type == NotificationProblem) {', 'if (type == NotificationProblem && times) {', 'reordered conjuncts'),
+ ('r2_gate2', 'semantic', 'lib/icinga/notification.cpp', 'for (int conflict : {NotificationProblem | NotificationRecovery, NotificationFlappingStart | NotificationFlappingEnd}) {', 'for (int conflict : {NotificationFlappingStart | NotificationFlappingEnd}) {', 'stashed Problem and Recovery no longer cancel out'),
+ ('r2_user', 'semantic', 'lib/icinga/notification.cpp', 'if (type == NotificationAcknowledgement) {\n\t\t\tif (!notifiedProblemUsers->Contains(userName) && (NotificationProblem & user->GetTypeFilter())) {', 'if (type == NotificationAcknowledgement) {\n\t\t\tif (!notifiedProblemUsers->Contains(userName)) {', 'acknowledgement rule also applies to users without Problem in their type filter'),
+ ('r2_user', 'harmless', 'lib/icinga/notification.cpp', 'if (type == NotificationAcknowledgement) {\n\t\t\tif (!notifiedProblemUsers->Contains(userName) && (NotificationProblem & user->GetTypeFilter())) {', 'if (type == NotificationAcknowledgement) {\n\t\t\tbool sawProblem = notifiedProblemUsers->Contains(userName);\n\t\t\tif ((NotificationProblem & user->GetTypeFilter()) && !sawProblem) {', 'hoisted local, reordered conjuncts'),
+ ('r2_book', 'semantic', 'lib/icinga/notification.cpp', 'if (type == NotificationProblem && GetInterval() <= 0)\n\t\t\tSetNoMoreNotifications(true);', 'if (type == NotificationProblem && GetInterval() < 0)\n\t\t\tSetNoMoreNotifications(true);', 'interval 0 no longer disables reminders'),
+ ('r2_timer', 'semantic', 'lib/notification/notificationcomponent.cpp', 'if (!reachable || checkable->IsInDowntime() || checkable->IsAcknowledged() || checkable->IsFlapping())', 'if (!reachable || checkable->IsInDowntime() || checkable->IsAcknowledged())', 'reminders are sent while flapping'),
+ ('r2_timer', 'harmless', 'lib/notification/notificationcomponent.cpp', 'if ((service && service->GetState() == ServiceOK) || (!service && host->GetState() == HostUp))', 'if (service ? service->GetState() == ServiceOK : host->GetState() == HostUp)', 'ternary instead of two guarded disjuncts'),
+ ('r2_isack', 'semantic', 'lib/icinga/checkable.cpp', 'return const_cast<Checkable *>(this)->GetAcknowledgement() != AcknowledgementNone;', 'return GetAcknowledgementRaw() != AcknowledgementNone;', 'IsAcknowledged ignores the expiry (reads the raw attribute): degrades or breaks, never silently accepted'),
+ ('r2_clearack', 'semantic', 'lib/icinga/checkable.cpp', 'SetAcknowledgementExpiry(0);', 'SetAcknowledgementExpiry(GetAcknowledgementExpiry());', 'the expiry survives ClearAcknowledgement: degrades or breaks'),
+ ('r2_ackblock', 'semantic', 'lib/icinga/checkable-check.cpp', '(GetAcknowledgement() == AcknowledgementSticky && IsStateOK(new_state))) {', '(GetAcknowledgement() == AcknowledgementSticky)) {', 'sticky acknowledgements are removed by every state change'),
+ ('r2_ackblock', 'harmless', 'lib/icinga/checkable-check.cpp', 'if (GetAcknowledgement() == AcknowledgementNormal ||\n\t\t\t(GetAcknowledgement() == AcknowledgementSticky && IsStateOK(new_state))) {', 'AcknowledgementType ackNow = GetAcknowledgement();\n\n\t\tif ((ackNow == AcknowledgementSticky && IsStateOK(new_state)) || ackNow == AcknowledgementNormal) {', 'one read into a local, disjuncts reordered'),
+ ('r2_ackblock2', 'unrecognised', 'lib/icinga/checkable-check.cpp', 'if (GetAcknowledgement() == AcknowledgementNormal ||\n\t\t\t(GetAcknowledgement() == AcknowledgementSticky && IsStateOK(new_state))) {', 'if ((IsStateOK(new_state) && GetAcknowledgement() == AcknowledgementSticky) || GetAcknowledgement() == AcknowledgementNormal) {', 'the first read of GetAcknowledgement() becomes conditional: hoisting is not exact, must degrade'),
+ ('r2_apiack', 'semantic', 'lib/icinga/apiactions.cpp', 'if (timestamp <= Utility::GetTime())\n\t\t\treturn ApiActions::CreateResult(409, "Acknowledgement \'expiry\'', 'if (timestamp < Utility::GetTime())\n\t\t\treturn ApiActions::CreateResult(409, "Acknowledgement \'expiry\'', 'an expiry equal to now is accepted'),
+ ('r2_apiack', 'harmless', 'lib/icinga/apiactions.cpp', '\tif (!service) {\n\t\tif (host->GetState() == HostUp)\n\t\t\treturn ApiActions::CreateResult(409, "Host " + checkable->GetName() + " is UP.");\n\t} else {\n\t\tif (service->GetState() == ServiceOK)\n\t\t\treturn ApiActions::CreateResult(409, "Service " + checkable->GetName() + " is OK.");\n\t}', '\tif (service && service->GetState() == ServiceOK)\n\t\treturn ApiActions::CreateResult(409, "Service " + checkable->GetName() + " is OK.");\n\n\tif (!service && host->GetState() == HostUp)\n\t\treturn ApiActions::CreateResult(409, "Host " + checkable->GetName() + " is UP.");', 'two guarded tests instead of if/else'),
+ ('r2_cluster', 'semantic', 'lib/icinga/clusterevents.cpp', '\tif (checkable->IsAcknowledged()) {\n\t\tLog(LogWarning, "ClusterEvents")\n\t\t\t<< "Discarding \'acknowledgement set\' message for checkable', '\tif (false && checkable->IsAcknowledged()) {\n\t\tLog(LogWarning, "ClusterEvents")\n\t\t\t<< "Discarding \'acknowledgement set\' message for checkable', 'the cluster handler overwrites an existing acknowledgement'),
+ ('r2_dtstart', 'semantic', 'lib/icinga/downtime.cpp', 'TriggerDowntime(std::fmax(std::fmax(GetStartTime(), GetEntryTime()), checkable->GetLastStateChange()));', 'TriggerDowntime(std::fmax(GetStartTime(), GetEntryTime()));', 'a flexible downtime on a failing object no longer starts at the last state change'),
+ ('r2_dtstart', 'harmless', 'lib/icinga/downtime.cpp', 'if (GetFixed() && CanBeTriggered()) {\n\t\t/* Send notifications. */\n\t\tOnDowntimeStarted(this);', 'bool fixedNow = GetFixed();\n\n\tif (CanBeTriggered() && fixedNow) {\n\t\t/* Send notifications. */\n\t\tOnDowntimeStarted(this);', 'hoisted local, reordered conjuncts'),
+ ('r2_dtremove', 'semantic', 'lib/icinga/downtime.cpp', 'if (!config_owner.IsEmpty() && removalReason == DowntimeRemovedByUser) {', 'if (!config_owner.IsEmpty() && removalReason != DowntimeExpired) {', 'the owning ScheduledDowntime can no longer remove its downtime'),
+ ('r2_dtremove', 'harmless', 'lib/icinga/downtime.cpp', 'if (!downtime || downtime->GetPackage() != "_api")\n\t\treturn;', 'if (!downtime)\n\t\treturn;\n\n\tif (downtime->GetPackage() != "_api")\n\t\treturn;', 'one test per if'),
+ ('r2_dttimer', 'semantic', 'lib/icinga/downtime.cpp', 'if (downtime->IsActive() &&\n\t\t\tdowntime->CanBeTriggered() &&\n\t\t\tdowntime->GetFixed()) {', 'if (downtime->IsActive() &&\n\t\t\tdowntime->CanBeTriggered()) {', 'the start timer also triggers flexible downtimes'),
+ ('r2_auth', 'semantic', 'lib/remote/apilistener-authority.cpp', 'if (num_total > 1 && endpoints.size() <= 1 && (startTime == 0 || Utility::GetTime() - startTime < 30))', 'if (num_total > 1 && endpoints.size() <= 1 && (startTime == 0 || Utility::GetTime() - startTime <= 30))', 'cold-start window one second longer'),
+ ('r2_auth', 'harmless', 'lib/remote/apilistener-authority.cpp', '\t\t\tif (endpoint != my_endpoint && !endpoint->GetConnected())\n\t\t\t\tcontinue;\n\n\t\t\tendpoints.push_back(endpoint);', '\t\t\tif (endpoint == my_endpoint || endpoint->GetConnected())\n\t\t\t\tendpoints.push_back(endpoint);', 'positive test instead of continue'),
+ ('r2_auth2', 'semantic', 'lib/remote/apilistener-authority.cpp', 'authority = endpoints[Utility::SDBM(object->GetName()) % endpoints.size()] == my_endpoint;', 'authority = endpoints[(Utility::SDBM(object->GetName()) + 1) % endpoints.size()] == my_endpoint;', 'objects are assigned to the other endpoint'),
+ ('r2_setauth', 'semantic', 'lib/base/configobject.cpp', '} else if (!authority && !GetPaused()) {', '} else if (!authority) {', 'Pause() is called again on an already paused object'),
+ ('r2_origin', 'semantic', 'lib/remote/jsonrpcconnection.cpp', 'if (m_Endpoint->GetZone() != Zone::GetLocalZone())\n\t\t\torigin->FromZone = m_Endpoint->GetZone();\n\t\telse\n\t\t\torigin->FromZone = Zone::GetByName(message->Get("originZone"));', 'origin->FromZone = Zone::GetByName(message->Get("originZone"));', 'every endpoint may claim an origin zone (the check C13 rests on)'),
+ ('r2_origin', 'harmless', 'lib/remote/jsonrpcconnection.cpp', 'if (m_Endpoint->GetZone() != Zone::GetLocalZone())\n\t\t\torigin->FromZone = m_Endpoint->GetZone();\n\t\telse\n\t\t\torigin->FromZone = Zone::GetByName(message->Get("originZone"));', 'if (m_Endpoint->GetZone() == Zone::GetLocalZone())\n\t\t\torigin->FromZone = Zone::GetByName(message->Get("originZone"));\n\t\telse\n\t\t\torigin->FromZone = m_Endpoint->GetZone();', 'branches swapped with the negated test'),
+ ('r2_relay', 'semantic', 'lib/remote/apilistener.cpp', '\t\ttargetZone != localZone->GetParent() &&\n', '', 'messages for the parent zone are no longer relayed'),
+ ('r2_replay', 'semantic', 'lib/remote/apilistener.cpp', 'if (pmessage->Get("timestamp") <= peer_ts)\n\t\t\t\t\tcontinue;', 'if (pmessage->Get("timestamp") < peer_ts)\n\t\t\t\t\tcontinue;', 'the entry the peer already has is replayed again'),
+ ('r2_replay', 'harmless', 'lib/remote/apilistener.cpp', '\t\t\t\t\tif (!secobj)\n\t\t\t\t\t\tcontinue;\n\n\t\t\t\t\tif (!target_zone->CanAccessObject(secobj))\n\t\t\t\t\t\tcontinue;', '\t\t\t\t\tif (!secobj || !target_zone->CanAccessObject(secobj))\n\t\t\t\t\t\tcontinue;', 'two tests merged'),
+ ('r2_cleanup', 'semantic', 'lib/remote/apilistener.cpp', 'if (endpoint->GetLogDuration() >= 0 && ts < now - endpoint->GetLogDuration())', 'if (endpoint->GetLogDuration() > 0 && ts < now - endpoint->GetLogDuration())', 'log_duration 0 keeps files for ever'),
+ ('r2_tpremove', 'semantic', 'lib/icinga/timeperiod.cpp', 'if (segment->Get("begin") >= begin && segment->Get("begin") < end)\n\t\t\tsegment->Set("begin", end);', 'if (segment->Get("begin") > begin && segment->Get("begin") < end)\n\t\t\tsegment->Set("begin", end);', 'the comparison of the defect fixed earlier (a segment starting exactly at begin is not trimmed)'),
+ ('r2_tpremove', 'harmless', 'lib/icinga/timeperiod.cpp', 'if (segment->Get("end") < begin || segment->Get("begin") > end) {\n\t\t\tnewSegments->Add(segment);\n\t\t\tcontinue;\n\t\t}', 'if (!(segment->Get("end") >= begin && segment->Get("begin") <= end)) {\n\t\t\tnewSegments->Add(segment);\n\t\t\tcontinue;\n\t\t}', 'De Morgan'),
+ ('r2_tpadd', 'semantic', 'lib/icinga/timeperiod.cpp', 'if (segment->Get("end") >= begin && segment->Get("end") <= end) {\n\t\t\t\tsegment->Set("end", end);', 'if (segment->Get("end") > begin && segment->Get("end") <= end) {\n\t\t\t\tsegment->Set("end", end);', 'adjacent segments are no longer merged'),
+ ('r2_tppurge', 'semantic', 'lib/icinga/timeperiod.cpp', 'if (segment->Get("end") >= end)\n\t\t\tnewSegments->Add(segment);', 'if (segment->Get("end") > end)\n\t\t\tnewSegments->Add(segment);', 'a segment ending exactly at the purge instant is dropped'),
+ ('r2_escape', 'semantic', 'lib/base/utility.cpp', 'if (ch == \'\\\'\')\n\t\t\tresult += "\'\\\\\'";\n#endif', 'if (ch == \'\\\'\')\n\t\t\tresult += "\\\\";\n#endif', 'a quote is escaped by a backslash inside the quotes (which the shell does not honour)'),
+ ('r2_addarg', 'semantic', 'lib/icinga/macroprocessor.cpp', 'if (add_key && separator.GetType() != ValueEmpty && add_value) {', 'if (add_key && separator.GetType() != ValueEmpty) {', 'key and separator are glued to a skipped value'),
+ ('r2_addarg', 'harmless', 'lib/icinga/macroprocessor.cpp', '\t\tif (add_key)\n\t\t\targs->Add(key);\n\n\t\tif (add_value)\n\t\t\targs->Add(value);', '\t\tif (add_key) {\n\t\t\targs->Add(key);\n\t\t}\n\n\t\tif (!add_value)\n\t\t\treturn;\n\n\t\targs->Add(value);', 'early return instead of a guarded statement'),
+ ('r2_emitarr', 'semantic', 'lib/icinga/macroprocessor.cpp', 'add_key = !arg.SkipKey && arg.RepeatKey;', 'add_key = arg.RepeatKey;', 'repeat_key overrides skip_key for the later elements'),
+ ('r2_sched', 'semantic', 'lib/checker/checkercomponent.cpp', 'if (host && service && (!checkable->GetEnableActiveChecks() || !icingaApp->GetEnableServiceChecks())) {', 'if (host && service && (!checkable->GetEnableActiveChecks() || !icingaApp->GetEnableHostChecks())) {', 'services follow the global host switch'),
+ ('r2_sched', 'harmless', 'lib/checker/checkercomponent.cpp', 'if (host && !service && (!checkable->GetEnableActiveChecks() || !icingaApp->GetEnableHostChecks())) {', 'if (!service && host && !(checkable->GetEnableActiveChecks() && icingaApp->GetEnableHostChecks())) {', 'reordered, De Morgan'),
+ ('r2_relayiter', 'semantic', 'lib/remote/apilistener.cpp', 'if (relayed && currentTargetZone != localZone) {', 'if (relayed) {', 'only one endpoint of the own zone gets the message'),
+ ('r2_relayiter', 'harmless', 'lib/remote/apilistener.cpp', 'bool isMaster = (currentZoneMaster == localEndpoint);\n\n\t\t\tif (!isMaster && targetEndpoint != currentZoneMaster) {', 'if (!(currentZoneMaster == localEndpoint || !(targetEndpoint != currentZoneMaster))) {', 'local folded into the test, De Morgan'),
+ ('r2_nextcheck', 'semantic', 'lib/icinga/checkable-check.cpp', 'adj = std::min(0.5 + fmod(GetSchedulingOffset(), interval * 5) / 100.0, adj);', 'adj = std::min(0.25 + fmod(GetSchedulingOffset(), interval * 5) / 100.0, adj);', 'constant of the jitter cap changed'),
+ ('r2_nextcheck', 'harmless', 'lib/icinga/checkable-check.cpp', 'double nextCheck = now - adj + interval;', 'double nextCheck = interval + now - adj;', 'summands reordered (equal in Q, not syntactically)'),
+ ('r2_ns', 'semantic', 'lib/base/netstring.cpp', '} else if (i > 16)', '} else if (i > 17)', 'one more byte is scanned for the colon'),
+ ('r2_ns2', 'semantic', 'lib/base/netstring.cpp', 'if (i >= 9)\n\t\t\tBOOST_THROW_EXCEPTION', 'if (i > 9)\n\t\t\tBOOST_THROW_EXCEPTION', 'a tenth length digit is accepted'),
  ('is_child_of', 'unrecognised', 'lib/remote/zone.cpp', '\tZone::Ptr azone = this;\n', '\tZone::Ptr azone = GetParent();\n', 'call outside the binding environment: degrades'),
 ]
 
@@ -72,9 +128,11 @@ def make():
     return r.returncode == 0, failed
 
 
+sh('git -C %s checkout -q .' % SCR)
+BASE = set(l for l in regen(SCR).splitlines() if l.startswith('xlate:') and 'not recognised' in l)     # fallbacks of the pristine tree
 rows = []
 for mid, kind, f, old, new, what in M:
-    if FILT and FILT not in mid: continue
+    if FILT and not any(x and x in mid for x in FILT.split(',')): continue
     sh('git -C %s checkout -q .' % SCR)
     p = os.path.join(SCR, f)
     src = open(p).read()
@@ -82,7 +140,7 @@ for mid, kind, f, old, new, what in M:
         rows.append(dict(id=mid, kind=kind, what=what, result='PATTERN NOT UNIQUE (%d)' % src.count(old))); print(rows[-1]); continue
     open(p, 'w').write(src.replace(old, new))
     log = regen(SCR)
-    unrec = [l for l in log.splitlines() if l.startswith('xlate:') and 'not recognised' in l]
+    unrec = [l for l in log.splitlines() if l.startswith('xlate:') and 'not recognised' in l and l not in BASE]
     ok_all, failed_all = make()
     # files of the translator tie; a failure elsewhere (older regex facts) is listed but judged separately
     failed = [x for x in failed_all if x.startswith('Src/') or '_src' in x or 'Facts_fn' in x]
@@ -96,5 +154,14 @@ sh('git -C %s checkout -q .' % SCR)
 print(regen())
 ok, failed = make()
 print('pristine:', 'compiles' if ok else failed)
-json.dump(rows, open(V + '/notes/XLATE_mutants.json', 'w'), indent=1)
+if FILT:          # a partial run replaces only its own rows
+    try:
+        prev = json.load(open(V + '/notes/XLATE_mutants.json'))
+    except (OSError, ValueError):
+        prev = []
+    done = {(r['id'], r['kind'], r['what']) for r in rows}
+    rows_out = [r for r in prev if (r['id'], r['kind'], r['what']) not in done] + rows
+else:
+    rows_out = rows
+json.dump(rows_out, open(V + '/notes/XLATE_mutants.json', 'w'), indent=1)
 print('%d/%d as expected' % (sum(1 for r in rows if r.get('as_expected')), len(rows)))
